@@ -42,6 +42,7 @@ type accInfo struct {
 	typ     string // decode type
 	decCall *ssa.Call
 	getCall *ssa.Call
+	codeIdx int // helpers: which parameter is the option code
 }
 
 // decodeTypeOf: what decodes the raw value v inside f
@@ -103,16 +104,22 @@ func c17AccessorsSel(c *Ctx, only map[string]bool) {
 		return out
 	}
 	for _, f := range c.P.ModuleFuncs() {
-		if pkgPathOf(f) != v4pkg || f.Parent() != nil || f.Signature.Recv() != nil || !strings.HasPrefix(f.Name(), "Get") {
+		// a helper: any function or method of the package that looks up ONE option whose code is one of its own parameters
+		// (GetString(code, o), (*DHCPv4).durationOr(code, def), …) and decodes it with one type
+		if pkgPathOf(f) != v4pkg || f.Parent() != nil {
 			continue
 		}
 		gs := getCalls(f)
 		if len(gs) != 1 {
 			continue
 		}
-		if prm, ok := gs[0].Call.Args[1].(*ssa.Parameter); ok && prm == f.Params[0] {
-			t, dc := decodeTypeOf(f, gs[0])
-			helpers[f] = &accInfo{fn: f, typ: t, decCall: dc, getCall: gs[0]}
+		if prm, ok := gs[0].Call.Args[1].(*ssa.Parameter); ok {
+			for i, p := range f.Params {
+				if p == prm {
+					t, dc := decodeTypeOf(f, gs[0])
+					helpers[f] = &accInfo{fn: f, typ: t, decCall: dc, getCall: gs[0], codeIdx: i}
+				}
+			}
 		}
 	}
 	// accessors: exported methods of *DHCPv4 reading one constant code
@@ -133,8 +140,8 @@ func c17AccessorsSel(c *Ctx, only map[string]bool) {
 				if !ok || cl.Call.StaticCallee() == nil {
 					return
 				}
-				if h, ok := helpers[cl.Call.StaticCallee()]; ok && info == nil {
-					if k, ok := optCodeConst(cl.Call.Args[0]); ok {
+				if h, ok := helpers[cl.Call.StaticCallee()]; ok && info == nil && h.codeIdx < len(cl.Call.Args) {
+					if k, ok := optCodeConst(cl.Call.Args[h.codeIdx]); ok {
 						info = &accInfo{fn: f, code: k, typ: h.typ, decCall: h.decCall, getCall: h.getCall}
 					}
 				}
